@@ -4,5 +4,6 @@ CONSTANT RcvMode = 0
 CONSTANT SndMode = 0
 CONSTANT PeerH1 = 1
 CONSTANT PeerH3 = 0
+CONSTANT Side = "client"
 INVARIANT Emit
 CHECK_DEADLOCK FALSE
